@@ -1871,4 +1871,169 @@ theorem nodup_map_inj {α β : Type} {f : α → β} : ∀ {l : List α}, (l.map
     · exact absurd hab (hn.1 a ha')
     · exact ih hn.2 ha' hb' hab
 
+/-! ### stored definitions are never altered -/
+
+/-- a definition set has at most one definition per pubkey. -/
+def UInv (s : State) : Prop := ∀ d, ((defsOf s d).map (fun p => p.1)).Nodup
+
+theorem not_mem_of_hasPk_false {ds : DefSet} {pk : Nat} (h : hasPk ds pk = false) : pk ∉ ds.map (fun p => p.1) := by
+  intro hm
+  obtain ⟨⟨a, df⟩, hm', rfl⟩ := List.mem_map.mp hm
+  have : hasPk ds a = true := (hasPk_iff _ _).mpr ⟨df, hm'⟩
+  rw [h] at this; cases this
+
+theorem setDef_UInv {s : State} (h : UInv s) (d : Duty) (ep pk : Nat) (df : Def) : UInv (setDef s d ep pk df).1 := by
+  intro d'
+  rw [defsOf_setDef]
+  split
+  · rename_i hc
+    rw [List.map_append]
+    refine List.nodup_append.mpr ⟨h d, by simp, ?_⟩
+    intro a ha b hb hab
+    simp at hb
+    subst hb; subst hab
+    exact not_mem_of_hasPk_false hc.2 ha
+  · exact h d'
+
+theorem setDef_mem_mono {s : State} {d d' : Duty} {ep pk pk' : Nat} {df df' : Def}
+    (h : (pk', df') ∈ defsOf s d') : (pk', df') ∈ defsOf (setDef s d ep pk df).1 d' := by
+  rw [defsOf_setDef]
+  split
+  · rename_i hc; obtain ⟨rfl, _⟩ := hc; exact List.mem_append_left _ h
+  · exact h
+
+theorem Stores.uinv {R : Duty → Nat → Nat → Def → Prop} {a b : State} (hs : Stores R a b) (h : UInv a) : UInv b := by
+  induction hs with
+  | refl => exact h
+  | set d ep pk df _ _ ih => exact setDef_UInv ih d ep pk df
+
+theorem Stores.mem_mono {R : Duty → Nat → Nat → Def → Prop} {a b : State} (hs : Stores R a b) {d : Duty} {pk : Nat} {df : Def}
+    (h : (pk, df) ∈ defsOf a d) : (pk, df) ∈ defsOf b d := by
+  induction hs with
+  | refl => exact h
+  | set d' ep pk' df' _ _ ih => exact setDef_mem_mono ih
+
+theorem UInv.bump {a b : State} (h : UInv a) (hd : b.duties = a.duties) : UInv b := by
+  intro d
+  have : defsOf b d = defsOf a d := by simp [defsOf, hd]
+  rw [this]; exact h d
+
+theorem UInv.trim {a : State} (h : UInv a) (x : Nat) : UInv (trim a x) := by
+  intro d
+  rw [defsOf_trim]
+  split
+  · simp
+  · exact h d
+
+theorem UInv.trimBack {a : State} (h : UInv a) (x : Nat) : UInv (trimBack a x) := by
+  unfold CharonV.Sched.trimBack; split
+  · exact h.trim _
+  · exact h
+
+theorem UInv.uniq {s : State} (h : UInv s) {d : Duty} {pk : Nat} {df df' : Def}
+    (h1 : (pk, df) ∈ defsOf s d) (h2 : (pk, df') ∈ defsOf s d) : df = df' := by
+  have := nodup_map_inj (h d) h1 h2 rfl
+  exact (Prod.mk.inj this).2
+
+/-- `resolveDuties` keeps every stored definition as it is, or deletes its whole set (trim). -/
+theorem resolveDuties_keeps (bn : BN) (cfg : Cfg) (s : State) (slot : Nat) (hu : UInv s) :
+    UInv (resolveDuties bn cfg s slot) ∧
+    ∀ d pk df, (pk, df) ∈ defsOf s d →
+      defsOf (resolveDuties bn cfg s slot) d = [] ∨ (pk, df) ∈ defsOf (resolveDuties bn cfg s slot) d := by
+  apply resolveDuties_ind bn cfg s slot
+    (fun s' => UInv s' ∧ ∀ d pk df, (pk, df) ∈ defsOf s d → defsOf s' d = [] ∨ (pk, df) ∈ defsOf s' d)
+  · exact ⟨hu.bump rfl, fun d pk df h => Or.inr h⟩
+  · intro _; exact ⟨hu.bump rfl, fun d pk df h => Or.inr h⟩
+  · intro vals _ _
+    have s2 := resolveAtt_stores bn cfg (st1 s) slot vals
+    have s3 := resolvePro_stores bn cfg (st2 bn cfg s slot vals) slot vals
+    have s4 := resolveSync_stores bn cfg (st3 bn cfg s slot vals) slot vals
+    have u2 : UInv (st2 bn cfg s slot vals) := s2.uinv (hu.bump rfl)
+    have u3 : UInv (st3 bn cfg s slot vals) := s3.uinv (u2.bump rfl)
+    have u4 : UInv (st4 bn cfg s slot vals) := s4.uinv (u3.bump rfl)
+    have m2 : ∀ d pk df, (pk, df) ∈ defsOf s d → (pk, df) ∈ defsOf (st2 bn cfg s slot vals) d :=
+      fun d pk df h => s2.mem_mono h
+    have m3 : ∀ d pk df, (pk, df) ∈ defsOf s d → (pk, df) ∈ defsOf (st3 bn cfg s slot vals) d :=
+      fun d pk df h => s3.mem_mono (m2 d pk df h)
+    have m4 : ∀ d pk df, (pk, df) ∈ defsOf s d → (pk, df) ∈ defsOf (st4 bn cfg s slot vals) d :=
+      fun d pk df h => s4.mem_mono (m3 d pk df h)
+    refine ⟨⟨u2, fun d pk df h => Or.inr (m2 d pk df h)⟩, ⟨u3, fun d pk df h => Or.inr (m3 d pk df h)⟩,
+      ⟨u4, fun d pk df h => Or.inr (m4 d pk df h)⟩, fun _ => ⟨?_, ?_⟩⟩
+    · exact (u4.bump (b := { st4 bn cfg s slot vals with resolvedEpoch := slot / cfg.spe }) rfl).trimBack _
+    · intro d pk df h
+      have h4 := m4 d pk df h
+      unfold st5 trimBack
+      split
+      · rw [defsOf_trim]
+        split
+        · exact Or.inl rfl
+        · exact Or.inr h4
+      · exact Or.inr h4
+
+theorem reorg_keeps (cfg : Cfg) (s : State) (ep : Nat) (hu : UInv s) :
+    UInv (reorg cfg s ep) ∧
+    ∀ d pk df, (pk, df) ∈ defsOf s d → defsOf (reorg cfg s ep) d = [] ∨ (pk, df) ∈ defsOf (reorg cfg s ep) d := by
+  unfold reorg
+  split
+  · split
+    · refine ⟨(hu.trim _).bump rfl, ?_⟩
+      intro d pk df h
+      have : defsOf { trim s s.resolvedEpoch with resolvedEpoch := maxInt64 } d = defsOf (trim s s.resolvedEpoch) d := rfl
+      rw [this, defsOf_trim]
+      split
+      · exact Or.inl rfl
+      · exact Or.inr h
+    · exact ⟨hu, fun d pk df h => Or.inr h⟩
+  · exact ⟨hu, fun d pk df h => Or.inr h⟩
+
+theorem trigLoop_UInv (bn : BN) (cfg : Cfg) (slot : Nat) :
+    ∀ (tys : List Nat) (s : State), UInv s → UInv (trigLoop bn cfg slot tys s).1 := by
+  intro tys
+  induction tys with
+  | nil => intro s h; exact h
+  | cons ty tys ih =>
+    intro s h
+    unfold trigLoop
+    cases AMap.get? s.duties ⟨slot, ty⟩ with
+    | none => exact ih s h
+    | some ds =>
+      simp only
+      split
+      · exact ih _ (resolveDuties_keeps bn cfg s (slot + 1) h).1
+      · exact ih s h
+
+theorem scheduleSlot_UInv (bn : BN) (cfg : Cfg) (s : State) (slot : Nat) (h : UInv s) :
+    UInv (scheduleSlot bn cfg s slot).1 := by
+  unfold scheduleSlot
+  apply trigLoop_UInv
+  unfold preResolve
+  split
+  · exact (resolveDuties_keeps bn cfg s slot h).1
+  · exact h
+
+theorem reach_uinv {bn : BN} {cfg : Cfg} {y : Sys} (h : Reach bn cfg y) : UInv y.st := by
+  obtain ⟨t0, es, rfl⟩ := h
+  have h0 : UInv (Sys.init cfg t0).st := by intro d; simp [Sys.init, defsOf, AMap.get?]
+  have hpump : ∀ (fuel : Nat) (y : Sys), UInv y.st → UInv (Sys.pump bn cfg fuel y).1.st := by
+    intro fuel
+    induction fuel with
+    | zero => intro y h; exact h
+    | succ n ih =>
+      intro y h
+      unfold Sys.pump
+      cases tickerStep cfg.slotDur y.now y.next with
+      | none => exact h
+      | some p => exact ih _ (scheduleSlot_UInv bn cfg y.st p.1 h)
+  have hrun : ∀ (es : List Ev) (y : Sys), UInv y.st → UInv (Sys.run bn cfg y es).st := by
+    intro es
+    induction es with
+    | nil => intro y h; exact h
+    | cons e es ih =>
+      intro y h
+      apply ih
+      cases e with
+      | adv d => exact hpump 3 _ h
+      | reorg ep => exact (reorg_keeps cfg y.st ep h).1
+  exact hrun es _ h0
+
 end CharonV.Sched
